@@ -86,7 +86,7 @@ Lemma direct_nodes_source_and_state g t st p i q u nsp nsi :
   nth_error (gnodes st) p = Some nsp -> nth_error (gnodes st) i = Some nsi ->
   snd (direct_nodes g (seq 0 (length g)) t st) = None ->
   let st' := fst (direct_nodes g (seq 0 (length g)) t st) in
-  let nsp' := src_pop (set_time t nsp) in
+  let nsp' := src_pop (sd q) (set_time t nsp) in
   nth_error (gnodes st') p = Some nsp' /\
   nth_error (gnodes st') i = Some (fst (stateful_post u t (nrdd nsp') nsi)) /\
   snd (stateful_post u t (nrdd nsp') nsi) = None.
@@ -102,14 +102,14 @@ Proof.
   rewrite Ep in Ep2. inversion Ep2; subst sp2. clear Ep2 Up2 Np2.
   rewrite Ei in Fp2. cbn [fst] in Fp2.
   (* direct p on sp *)
-  assert (Dp : nth_error (gnodes (fst (direct g p t sp))) p = Some (src_pop (set_time t nsp))).
+  assert (Dp : nth_error (gnodes (fst (direct g p t sp))) p = Some (src_pop (sd q) (set_time t nsp))).
   { unfold direct. rewrite Hgp, Up, Hsp. cbn [fst]. eapply nth_put_eq. rewrite Up. exact Hsp. }
   rewrite Dp in Fp, Fp2.
   split; [exact Fp|].
   (* direct i on si *)
   rewrite Fi. unfold direct in Ni |- *. rewrite Hgi, Ui, Hsi in Ni. rewrite Hgi, Ui, Hsi.
   rewrite (rdd_of_nth _ _ _ Fp2) in Ni. rewrite (rdd_of_nth _ _ _ Fp2).
-  destruct (stateful_post u t (nrdd (src_pop (set_time t nsp))) nsi) as [n2 e2]. cbn [fst snd] in *.
+  destruct (stateful_post u t (nrdd (src_pop (sd q) (set_time t nsp))) nsi) as [n2 e2]. cbn [fst snd] in *.
   split; [|exact Ni]. eapply nth_put_eq. rewrite Ui. exact Hsi.
 Qed.
 
@@ -132,7 +132,7 @@ Qed.
 
 (* ---------- a stateful stream i on a queue source p, ANYWHERE in a well-formed program ---------- *)
 Section StatefulAnywhere.
-Variables (g : list node) (p i : nat) (u : list val -> val -> val) (kq : list (list (Z * val))).
+Variables (g : list node) (p i : nat) (u : list val -> val -> val) (kq : ksource).
 Hypothesis Hwf : well_formed g.
 Hypothesis Hpi : (p < i < length g)%nat.
 Hypothesis Hgp : nth_error g p = Some (Src (enc_queue kq)).
@@ -201,6 +201,8 @@ End StatefulAnywhere.
    sit anywhere; no mapValues stream (it raises on elements that are not pairs).  All the programs of the property,
    windows over derived streams, and any combination of them on any number of sources are quiet. *)
 Definition keyed_batch (b : list val) : Prop := all_kv b <> None.
+(* every batch the source can hand out (its entries and its default) holds (key, value) pairs *)
+Definition keyed_source (q : source) : Prop := forall b, In (Some b) (sd q :: sq q) -> keyed_batch b.
 
 Definition maplike (f : tfun) : bool :=
   match f with FCountParts | FSetName | FMapInc | FFilterEven | FFlatDup => true | _ => false end.
@@ -219,7 +221,7 @@ Definition quiet_node (g : list node) (nd : node) : Prop :=
   | Trans FMapValuesInc _ => False
   | Trans _ _ => True
   | Window _ _ p => live g p
-  | Stateful _ p => exists q, nth_error g p = Some (Src q) /\ Forall keyed_batch q
+  | Stateful _ p => exists q, nth_error g p = Some (Src q) /\ keyed_source q
   | Union p1 p2 => live g p1 /\ live g p2
   end.
 Definition quiet (g : list node) : Prop := forall j nd, nth_error g j = Some nd -> quiet_node g nd.
@@ -228,7 +230,7 @@ Definition cnt_shape (r : rdd) : Prop := r = RNone \/ r = REmpty \/ exists z, r 
 
 Definition kind_ok (g : list node) (nd : node) (ns : nstate) : Prop :=
   match nd with
-  | Src q => (forall b, nrdd ns = RData b -> In b q) /\ (forall b, In b (nqueue ns) -> In b q)
+  | Src q => (forall b, nrdd ns = RData b -> In (Some b) (sd q :: sq q)) /\ (forall e, In e (nqueue ns) -> In e (sq q))
   | Window _ _ _ => existsb is_none_rdd (nbuf ns) = false
   | Trans FCountParts _ => cnt_shape (nrdd ns)
   | Trans FSetName p2 => (exists p3, nth_error g p2 = Some (Trans FCountParts p3)) -> cnt_shape (nrdd ns)
@@ -301,13 +303,17 @@ Proof.
   unfold direct. rewrite Hg, Hs.
   destruct nd as [q|f p|w s p|u p|p1 p2].
   - (* source *)
-    apply (Hsuff (src_pop (set_time t ns)) [] None); [now rewrite Hadd|reflexivity|].
+    apply (Hsuff (src_pop (sd q) (set_time t ns)) [] None); [now rewrite Hadd|reflexivity|].
     destruct Hme as (M2 & M3). unfold src_pop. cbn [nqueue set_time].
-    destruct (nqueue ns) as [|b r] eqn:Eq; cbn.
-    + split; [split; [discriminate|intros b0 Hb0; cbn in Hb0; rewrite Eq in Hb0; cbn in Hb0; contradiction]|intros _ H; discriminate H].
-    + split; [split|intros _ H; discriminate H].
-      * intros b0 Hb0. inversion Hb0; subst. apply M3. now left.
-      * intros b0 Hb0. apply M3. now right.
+    assert (Hnn : forall e, entry_rdd e = RNone -> t <= 0) by (intros [b0|] H; discriminate H).
+    destruct (nqueue ns) as [|e r] eqn:Eq.
+    + split; [split|intros _; apply Hnn].
+      * cbn [nrdd set_rdd]. intros b0 Hb0. left. destruct (sd q); [cbn in Hb0; congruence|discriminate Hb0].
+      * cbn [nqueue set_rdd set_time]. rewrite Eq. intros e0 He0. destruct He0.
+    + split; [split|intros _; apply Hnn].
+      * cbn [nrdd set_rdd set_queue]. intros b0 Hb0. right. apply M3. left.
+        destruct e; [cbn in Hb0; congruence|discriminate Hb0].
+      * cbn [nqueue set_queue]. intros e0 He0. apply M3. now right.
   - (* transformed *)
     destruct (trans_post f t (rdd_of st p) ns) as [[n2 lg] e2] eqn:E.
     unfold trans_post in E.
@@ -378,7 +384,7 @@ Proof.
     + cbn [collect all_kv]. eapply (Hsuff _ [] None); [rewrite Hadd; reflexivity|reflexivity|].
       split; [exact I|cbn; intros _ H; discriminate H].
     + cbn [collect]. specialize (M2 b eq_refl).
-      pose proof (proj1 (Forall_forall _ _) Hkeyed b M2) as Hk. unfold keyed_batch in Hk.
+      pose proof (Hkeyed b M2) as Hk. unfold keyed_batch in Hk.
       destruct (all_kv b) as [kb|]; [|congruence].
       eapply (Hsuff _ [] None); [rewrite Hadd; reflexivity|reflexivity|].
       split; [exact I|cbn; intros _ H; discriminate H].
@@ -471,10 +477,14 @@ Proof.
 Qed.
 End QuietRuns.
 
-Lemma keyed_enc_queue kq : Forall keyed_batch (enc_queue kq).
+Lemma keyed_enc_queue kq : keyed_source (enc_queue kq).
 Proof.
-  unfold enc_queue. apply Forall_forall. intros b Hb. apply in_map_iff in Hb as (kb & <- & _).
-  unfold keyed_batch. rewrite all_kv_enc. discriminate.
+  intros b Hb. unfold keyed_batch.
+  assert (H : exists kb, b = map enc_kv kb).
+  { cbn [sd sq enc_queue] in Hb. destruct Hb as [Hb|Hb].
+    - destruct (kdefault kq); cbn in Hb; [inversion Hb; eauto|discriminate].
+    - apply in_map_iff in Hb as ([kb|] & E & _); cbn in E; [inversion E; eauto|discriminate]. }
+  destruct H as (kb & ->). rewrite all_kv_enc. discriminate.
 Qed.
 
 (* ---------- the two mixed programs are well-formed and quiet ---------- *)
